@@ -284,6 +284,7 @@ def cases(tier):
                     out.append(("prog", name, {ids[0]: k1, ids[1]: k2}))
     for mapping in mappable_cases():
         out.append(("mappable",) + mapping)
+    out += pair_cases(tier)
     return out
 
 
@@ -405,6 +406,76 @@ def run_prog(name, chosen, mappable=False):
     return out + [("@compared", "")]
 
 
+
+# ---- expressions sharing their operands ----------------------------------------------------------------------------------
+# Two arguments of one template built from the SAME variable and the same constant through different operations / classes
+# (v+c vs v-c, Blackman(t, a) vs Constant(t, a), ...): every ordered pair, template.build vs direct construction.
+import operator as _op
+
+PAIR_EXPRS = [
+    ("v+c", lambda v, c: v + c), ("v-c", lambda v, c: v - c), ("v*c", lambda v, c: v * c), ("v/c", lambda v, c: v / c),
+    ("v**c", lambda v, c: v**c), ("c+v", lambda v, c: c + v), ("c-v", lambda v, c: c - v), ("c*v", lambda v, c: c * v),
+    ("c/v", lambda v, c: c / v), ("-v", lambda v, c: -v), ("abs", lambda v, c: abs(v)), ("sqrt", lambda v, c: np.sqrt(v)),
+    ("sin", lambda v, c: np.sin(v)), ("cos", lambda v, c: np.cos(v)), ("floor", lambda v, c: np.floor(v)), ("ceil", lambda v, c: np.ceil(v)),
+    ("v", lambda v, c: v),
+]
+PAIR_WFS = ["Blackman", "Constant", "Kaiser", "Ramp(a,a)", "Ramp(0,a)"]
+
+
+def pair_cases(tier):
+    out = [("pairs", "expr", i, j) for i in range(len(PAIR_EXPRS)) for j in range(len(PAIR_EXPRS)) if i != j]
+    out += [("pairs", "wf", i, j) for i in range(len(PAIR_WFS)) for j in range(len(PAIR_WFS)) if i != j]
+    return out
+
+
+def _pair_wf(kind, t, a):
+    from pulser.waveforms import BlackmanWaveform, ConstantWaveform, KaiserWaveform, RampWaveform
+
+    return {"Blackman": lambda: BlackmanWaveform(t, a), "Constant": lambda: ConstantWaveform(t, a), "Kaiser": lambda: KaiserWaveform(t, a),
+            "Ramp(a,a)": lambda: RampWaveform(t, a, a), "Ramp(0,a)": lambda: RampWaveform(t, 0.0, a)}[kind]()
+
+
+def run_pairs(what, i, j):
+    from pulser import Pulse
+
+    w = World(WORLD)
+    out = []
+
+    def program(seq, a, t):
+        seq.declare_channel("g", "rydberg_global")
+        if what == "expr":
+            for k in (i, j):
+                seq.add(Pulse.ConstantPulse(t, 1.0, PAIR_EXPRS[k][1](a, 2.0), 0.0), "g")
+        else:
+            for k in (i, j):
+                seq.add(Pulse.ConstantDetuning(_pair_wf(PAIR_WFS[k], t, a), 0.0, 0.0), "g")
+
+    with warnings.catch_warnings():
+        warnings.simplefilter("ignore")
+        tmpl = w.fresh(apply_prefix=False)
+        a = tmpl.declare_variable("a", dtype=float)
+        t = tmpl.declare_variable("t", dtype=int)
+        try:
+            program(tmpl, a, t)
+        except Exception as e:
+            return [(f"C08:pairs:template-raises:{type(e).__name__}", f"{what} {i},{j}: {e}"[:200])]
+        names = (PAIR_EXPRS[i][0], PAIR_EXPRS[j][0]) if what == "expr" else (PAIR_WFS[i], PAIR_WFS[j])
+        for av, tv in ((1.5, 100), (0.75, 200), (1.5, 100)):
+            d = w.fresh(apply_prefix=False)
+            try:
+                program(d, np.float64(av), tv)
+            except Exception:
+                continue
+            try:
+                b = tmpl.build(a=av, t=tv)
+            except Exception as e:
+                out.append((f"C08:pairs:build-raises:{what}:{type(e).__name__}", f"{names} with a={av}, t={tv}: {e}"[:200]))
+                continue
+            if snapshot.snap(b, False).key() != snapshot.snap(d, False).key():
+                out.append((f"C08:pairs:build-differs-from-direct:{what}", f"arguments {names[0]} then {names[1]} over the same operands, a={av}, t={tv}"))
+    return out + [("@pairs", "")]
+
+
 # ---- mappable registers ------------------------------------------------------------------------------
 QIDS = [("b", "a", "c"), ("q2", "q10", "q1"), (2, 0, 1)]
 
@@ -473,6 +544,8 @@ def run_mappable(qi, traps):
 
 
 def worker(case):
+    if case[0] == "pairs":
+        return run_pairs(case[1], case[2], case[3])
     if case[0] in ("prog", "progm"):
         out = run_prog(case[1], case[2], mappable=case[0] == "progm")
         if case[0] == "progm":  # distinct fingerprints for the mappable variant
@@ -491,10 +564,13 @@ def run(tier, seed):
             if fp.startswith("@"):
                 classes[fp] = classes.get(fp, 0) + 1
             else:
+                if c[0] == "pairs":
+                    res.add(Violation(fp, d, {"engine": "progx", "case": list(c)}, size=0))
+                    continue
                 res.add(Violation(fp, d, {"engine": "progx", "case": [c[0], c[1], c[2] if c[0] not in ("prog", "progm") else {str(k): v for k, v in c[2].items()}]},
                                   size=len(c[2]) if c[0] in ("prog", "progm") else 0))
     res.coverage = dict(
-        evaluations=len(cs), distinct_nontrivial=classes.get("@compared", 0) + classes.get("@mappable", 0), exhaustive=True,
+        evaluations=len(cs), distinct_nontrivial=classes.get("@compared", 0) + classes.get("@mappable", 0) + classes.get("@pairs", 0), exhaustive=True,
         outcome_classes=classes,
         rule="7 skeleton programs (pulses of every waveform class, delays, phase shifts, EOM with drift correction, DMM, index targeting, "
              "XY) x every subset of their numeric argument positions replaced by variable expressions (14 expression kinds rotating; "
@@ -512,4 +588,6 @@ def replay(payload):
     c = payload["case"]
     if c[0] in ("prog", "progm"):
         return [Violation(fp, d, payload) for fp, d in worker((c[0], c[1], {int(k): v for k, v in c[2].items()})) if not fp.startswith("@")]
+    if c[0] == "pairs":
+        return [Violation(fp, d, payload) for fp, d in run_pairs(c[1], c[2], c[3]) if not fp.startswith("@")]
     return [Violation(fp, d, payload) for fp, d in run_mappable(c[1], tuple(c[2])) if not fp.startswith("@")]
